@@ -1,0 +1,183 @@
+//! Read-only accessors and thin wrappers used by the external verification harness.
+//! Compiled only with `--cfg xray_verif`; nothing here is reachable otherwise.
+#![allow(unreachable_pub, dead_code)]
+
+use crate::builtin::optional::XOptional;
+use crate::builtin::sequence::XSequence;
+use crate::builtin::stack::XStack;
+use crate::root_runtime_scope::EvaluatedValue;
+use crate::runtime::RTCell;
+use crate::util::fenced_string::FencedString;
+use crate::util::lazy_bigint::LazyBigint;
+use crate::xvalue::{ManagedXValue, XValue};
+use std::rc::Rc;
+
+pub fn stats_size<W, R, T>(rt: &RTCell<W, R, T>) -> usize {
+    usize::from(rt.stats.borrow().size)
+}
+
+pub fn stats_ud_calls<W, R, T>(rt: &RTCell<W, R, T>) -> usize {
+    rt.stats.borrow().ud_calls
+}
+
+fn esc(s: &str, out: &mut String) {
+    out.push('"');
+    for c in s.chars() {
+        match c {
+            '"' => out.push_str("\\\""),
+            '\\' => out.push_str("\\\\"),
+            c if (c as u32) < 0x20 || (c as u32) > 0x7e => {
+                out.push_str(&format!("\\u{{{:x}}}", c as u32))
+            }
+            c => out.push(c),
+        }
+    }
+    out.push('"');
+}
+
+pub fn dump_managed<W: 'static, R: 'static, T: 'static>(
+    v: &Rc<ManagedXValue<W, R, T>>,
+    out: &mut String,
+) {
+    match &v.value {
+        XValue::Int(LazyBigint::Short(s)) => out.push_str(&format!("(int S {s})")),
+        XValue::Int(LazyBigint::Long(b)) => out.push_str(&format!("(int L {b})")),
+        XValue::Float(f) => out.push_str(&format!("(float {:016x})", f.to_bits())),
+        XValue::String(s) => {
+            out.push_str("(str ");
+            esc(s.as_str(), out);
+            out.push(')');
+        }
+        XValue::Bool(b) => out.push_str(if *b { "(bool true)" } else { "(bool false)" }),
+        XValue::Function(_) => out.push_str("(fn)"),
+        XValue::StructInstance(items) => {
+            out.push_str("(struct");
+            for i in items {
+                out.push(' ');
+                dump_managed(i, out);
+            }
+            out.push(')');
+        }
+        XValue::UnionInstance((tag, item)) => {
+            out.push_str(&format!("(union {tag} "));
+            dump_managed(item, out);
+            out.push(')');
+        }
+        XValue::Native(n) => {
+            let any = n.as_ref()._as_any();
+            if let Some(seq) = any.downcast_ref::<XSequence<W, R, T>>() {
+                match seq {
+                    XSequence::Empty => out.push_str("(seq)"),
+                    XSequence::Array(arr) => {
+                        out.push_str("(seq");
+                        for i in arr {
+                            out.push(' ');
+                            dump_managed(i, out);
+                        }
+                        out.push(')');
+                    }
+                    XSequence::Range(a, b, c) => out.push_str(&format!("(lazyseq range {a} {b} {c})")),
+                    XSequence::Map(..) => out.push_str("(lazyseq map)"),
+                    XSequence::Zip(..) => out.push_str("(lazyseq zip)"),
+                    XSequence::Chain { .. } => out.push_str("(lazyseq chain)"),
+                    XSequence::Slice(..) => out.push_str("(lazyseq slice)"),
+                    XSequence::Count => out.push_str("(lazyseq count)"),
+                }
+            } else if let Some(opt) = any.downcast_ref::<XOptional<W, R, T>>() {
+                match &opt.value {
+                    None => out.push_str("(none)"),
+                    Some(i) => {
+                        out.push_str("(some ");
+                        dump_managed(i, out);
+                        out.push(')');
+                    }
+                }
+            } else if let Some(st) = any.downcast_ref::<XStack<W, R, T>>() {
+                out.push_str("(stack");
+                for i in st.iter() {
+                    out.push(' ');
+                    dump_managed(&i, out);
+                }
+                out.push(')');
+            } else {
+                out.push_str("(native)");
+            }
+        }
+    }
+}
+
+/// Canonical dump of an evaluated value (value or error value).
+pub fn dump_value<W: 'static, R: 'static, T: 'static>(v: &EvaluatedValue<W, R, T>) -> String {
+    let mut out = String::new();
+    match v {
+        Ok(v) => dump_managed(v, &mut out),
+        Err(e) => {
+            out.push_str("(error ");
+            esc(&e.error, &mut out);
+            out.push(')');
+        }
+    }
+    out
+}
+
+pub mod bigint {
+    use super::LazyBigint;
+    pub fn div_floor(a: LazyBigint, b: LazyBigint) -> LazyBigint {
+        a.div_floor(b)
+    }
+    pub fn div_ceil(a: LazyBigint, b: LazyBigint) -> LazyBigint {
+        a.div_ceil(b)
+    }
+    pub fn true_div(a: LazyBigint, b: LazyBigint) -> f64 {
+        a.true_div(b)
+    }
+    pub fn first_u64_digit(a: &LazyBigint) -> LazyBigint {
+        a.first_u64_digit()
+    }
+    pub fn bits(a: &LazyBigint) -> u64 {
+        a.bits()
+    }
+    pub fn additional_size(a: &LazyBigint) -> usize {
+        a.additional_size()
+    }
+    pub fn from_str_radix(s: &str, radix: u32) -> Option<LazyBigint> {
+        LazyBigint::from_str_radix(s, radix).ok()
+    }
+    pub fn magnitude_to_str(a: &LazyBigint, radix: u32) -> String {
+        a.magnitude_to_str(radix)
+    }
+    pub fn sign(a: &LazyBigint) -> i8 {
+        a.sign()
+    }
+}
+
+pub mod fstring {
+    use super::FencedString;
+    pub fn from_string(s: String) -> FencedString {
+        FencedString::from_string(s)
+    }
+    pub fn as_str(s: &FencedString) -> &str {
+        s.as_str()
+    }
+    pub fn len(s: &FencedString) -> usize {
+        s.len()
+    }
+    pub fn substring(s: &FencedString, start: usize, end: Option<usize>) -> FencedString {
+        s.substring(start, end)
+    }
+    pub fn substr(s: &FencedString, start: usize, end: Option<usize>) -> String {
+        s.substr(start, end).to_string()
+    }
+    pub fn push(s: &mut FencedString, other: &FencedString) {
+        s.push(other)
+    }
+    pub fn to_lowercase(s: &FencedString) -> Option<FencedString> {
+        s.to_lowercase()
+    }
+    pub fn to_uppercase(s: &FencedString) -> Option<FencedString> {
+        s.to_uppercase()
+    }
+    pub fn size(s: &FencedString) -> usize {
+        s.size()
+    }
+}
